@@ -34,13 +34,13 @@ checks = {
    text="for every Clean/Save in every history, every prefix of its recorded Write/Remove sequence is materialised as a storage image and loaded by a fresh repository: Load must succeed without panic, the chain must be linked accepted headers with at least the work of the last completed Save",
    note=A_NOTE + "; single-key writes atomic (as the property states)", tech="exhaustive crash-point enumeration over the real write sequence of every explored history (explicit-state search + fault injection at every storage call)"),
  "C17": dict(engine="hdrmc", cat="model_checking", ref="DESIGN.md 3, 7 C17",
-   text="all histories with mark/unmark of best-chain, side-branch, first-of-branch, unseen, unknown and already-marked hashes, followed by resubmission, competitors, Save+Load, and marking after the repository was pruned (Clean/Load with depth 2-3 on a grown chain: lowest retained header, already pruned header): tip = heaviest remaining (retained) accepted header, marked subtree never flagged in the best chain, verdicts per reference",
+   text="all histories with mark/unmark of best-chain, side-branch, first-of-branch, unseen, unknown and already-marked hashes, followed by resubmission, competitors, Save+Load, marking between two persistence operations (Save, mark, Save+Load), and marking after the repository was pruned (Clean/Load with depth 2-3 on a grown chain: lowest retained header, already pruned header): tip = heaviest remaining (retained) accepted header, marked subtree never flagged in the best chain, verdicts per reference",
    note=A_NOTE, tech=A_TECH),
  "C18": dict(engine="hdrmc", cat="model_checking", ref="DESIGN.md 3, 7 C18",
-   text="in every state of a reduced exploration every accepted header x every transaction position x {with header, hash only}: valid proof must return the model's (height, in-best-chain); every single-element corruption (txid, each path element, index xor/shift/overflow/negative, duplicate list, path length, header, block hash, missing target) must be refused",
+   text="in every state of a reduced exploration every accepted header x every transaction position x {with header, hash only}: valid proof must return the model's (height, in-best-chain); every single-element corruption (txid, each path element, index xor/shift/overflow/negative, duplicate list, path length, header, block hash, missing target) must be refused, and so must a right-path proof for every header that was submitted and refused or never submitted (with header, hash only, both)",
    note=A_NOTE + "; blocks of 1-4 transactions derived from the header label", tech=A_TECH + "; proofs built by an independent merkle implementation"),
  "C19": dict(engine="hdrmc", cat="model_checking", ref="DESIGN.md 3, 7 C19",
-   text="in every state: locator for max 1,2,3,10,50 and the verify-only locator are checked for membership, order, start at tip-1, length, duplicates; protocol-conformant peers on every accepted tip (and 1-2 headers ahead) are simulated and their first reply header is submitted to the real repository",
+   text="in every state: locator for max 1,2,3,10,50 and the verify-only locator are checked for membership, order, start at tip-1, length, duplicates; protocol-conformant peers on every accepted tip (and 1-2 headers ahead) are simulated and their first reply header is submitted to the real repository; the locators are also requested after every operation of the history (a read must not influence later answers), including histories that remove a side branch while the tip stays (mark invalid)",
    note=A_NOTE + "; synthetic split table at heights 2/3 and the real mainnet table on base chains", tech=A_TECH),
  "C02": dict(engine="powenum", cat="exploration", ref="DESIGN.md 6, 7 C02",
    text="three complete finite spaces through the real code: (1) Branch.Target on real Branch objects (root and fork branches straddling either median window) for all 3^6 order/tie patterns of the six headers that matter x 11 time-span classes (incl. more than 2^31 s apart) x bits patterns, compared with a reference implementation of the network's 144-block algorithm; (2) every exponent byte 0..255 x 11 mantissas through ProcessHeader and HandleHeadersMessage: no panic for any encoding, refusal whenever the hash exceeds a well-defined target (incl. zero targets); (3) both real mainnet fixture chains (incl. the 556767 split) accepted with difficulty checking on, and 15 single-field mutations of every header in a window refused with the right error class; (4) a header with real proof of work (nonce mined once, recorded as a constant) on a fork that is not the most-work branch where the two branches require different bits: accepted iff its bits equal the target computed on its own branch",
@@ -55,7 +55,7 @@ checks = {
    note="node runs free on an in-memory connection; oracles are spy observations (conclusive when they fire); state key = hooked node dump + spy counters + sent-command counts",
    tech="explicit-state model checking of the implementation (BFS over message histories, state de-duplication by hooked node dump)"),
  "C14": dict(engine="netmc", cat="model_checking", ref="DESIGN.md 5, 7 C14",
-   text="from the ready state (with/without tx manager, with/without a requested block) and from handshake-complete: all sequences of up to 2/3 letters over the full 45-letter alphabet (known and unknown commands, payloads 0 B - 4 MiB, classic and extended framing, requested/unrequested blocks and txs, empty/full lists), extended to depth 13 along state-changing letters (repeated version, verack, protoconf, getaddr, inv, tx, headers); after every letter a ping must be answered with its nonce while the connection is up",
+   text="from the ready state (with/without tx manager, with/without a requested block) and from handshake-complete: all sequences of up to 2/3 letters over the full 45-letter alphabet (known and unknown commands, payloads 0 B - 4 MiB, classic and extended framing, requested/unrequested blocks and txs, empty/full lists), extended to depth 13 along state-changing letters (repeated version, verack, protoconf, getaddr, inv, tx, headers), and the same alphabet to depth 2 with the stream delivered in pieces (reads of at most 7 bytes and of 1 byte); after every letter a ping must be answered with its nonce while the connection is up",
    note="a missing pong is judged after 4 s (normal latency is tens of microseconds) and only reported if it reproduces 3/3; node scheduling is free-running",
    tech="explicit-state model checking of the implementation (BFS over message histories with a ping barrier after every message)"),
  "C15": dict(engine="netmc+schedmc", cat="exploration", ref="DESIGN.md 5, 7 C15",
@@ -67,15 +67,15 @@ checks = {
    note="HandleBlock driven directly with a pre-filled closed channel (sequential); interleavings are C16; the node-side framing leg is covered by the C14/C15 checks",
    tech="bounded-exhaustive input and fault-position enumeration on the implementation against a reference"),
  "C05": dict(engine="schedmc", cat="model_checking", ref="DESIGN.md 4, 7 C05",
-   text="the real NodeManager.TriggerBlockSynchronize / runSynchronizeBlocks / synchronizeBlocks, the real BlockManager and BlockDownloader and the threads library, instrumented and run under the controlled scheduler on a real (native) headers.Repository, with a scripted block source and recording processor/store: chain length 1-3(4) x start height tip-2..tip+1 x processed sets (prefixes and a gap) x source failures (node drops, no node available twice, wrong block served) x events during synchronisation (one and two extra triggers, new header + trigger, 1- and 2-deep reorganisation + trigger, a source that stays silent past the orphan check while the chain reorganises underneath), every ordering at call granularity (preemption bound 0; bound 1-2 in the thorough tier). Oracles: no request below the start height, none for a block already recorded, processing ascending, contiguous on one chain and at most once per block, every owed best-chain block processed at quiescence, no deadlock / endless polling",
+   text="the real NodeManager.TriggerBlockSynchronize / runSynchronizeBlocks / synchronizeBlocks, the real BlockManager and BlockDownloader and the threads library, instrumented and run under the controlled scheduler on a real (native) headers.Repository, with a scripted block source and recording processor/store: chain length 1-3(4) x start height tip-2..tip+1 x processed sets (prefixes and a gap) x source failures (node drops, no node available twice, wrong block served) x events during synchronisation (one and two extra triggers, new header + trigger, 1- and 2-deep reorganisation + trigger, a source that stays silent past the orphan check while the chain reorganises underneath, and - with two concurrent requests - an asynchronous source that stalls mid-download while a second one finishes first), every ordering at call granularity (preemption bound 0; bound 1-2 in the thorough tier). Oracles: no request below the start height, none for a block already recorded, processing ascending, contiguous on one chain and at most once per block, every owed best-chain block processed at quiescence, no deadlock / endless polling",
    note="the property quantifies over histories, configurations and fault sequences, not schedules, so the block source answers inside RequestBlock (no node/handler threads); interleavings of delivery/cancel/stop are C16's subject; virtual time",
    tech="stateless model checking of the implementation under a hand-written cooperative scheduler: exhaustive enumeration of schedules at call granularity over an enumerated set of configurations / fault sequences"),
  "C06": dict(engine="schedmc", cat="model_checking", ref="DESIGN.md 4, 7 C06",
-   text="the real TxManager (AddTxID, AddTx, GetTxRequests, Run) instrumented by source rewriting and run under a controlled scheduler: for every pair of peer scripts over {announce, deliver} of length <= 2 (and 3 peers / 2 transactions / retry polls after a virtual-clock advance past the request timeout), all interleavings up to preemption bound 2 (1 for the retry-poll scenarios) are executed; every execution's call/return history, projected to each single transaction, must be linearizable (porcupine) against a map model of 'request from exactly one announcer per timeout window, retry per announcer after the timeout, never after delivery', and the processor / saver must have seen each delivered transaction exactly once",
+   text="the real TxManager (AddTxID, AddTx, GetTxRequests, Run) instrumented by source rewriting and run under a controlled scheduler: for every pair of peer scripts over {announce, deliver} of length <= 2 (and 3 peers / 2 transactions / retry polls after a virtual-clock advance past the request timeout / three announcers of one old undelivered transaction with the clock passing the timeout at any point), all interleavings up to preemption bound 2 (1 for the retry-poll scenarios) are executed; every execution's call/return history, projected to each single transaction, must be linearizable (porcupine) against a map model of 'request from exactly one announcer per timeout window, retry per announcer after the timeout, never after delivery', and the processor / saver must have seen each delivered transaction exactly once",
    note="interleavings at synchronisation operations (sequential consistency); preemption-bounded; virtual time; retry polls (incl. polls whose max is smaller than the eligible set of one bucket) complete to bound 1 because one poll is ~520 scheduling points; linearizability is per transaction because the statement is (a poll is not atomic across different transactions); the end-to-end inv->getdata->tx wire leg is exercised by the C13/C14 message-history checks, not here",
    tech="stateless model checking of the implementation: exhaustive enumeration of thread schedules under a hand-written cooperative scheduler (iterative preemption bounding, happens-before state caching), linearizability checking of every execution"),
  "C16": dict(engine="schedmc", cat="model_checking", ref="DESIGN.md 4, 7 C16",
-   text="the real BlockDownloader and BlockManager (and the threads library) instrumented by source rewriting and run under a controlled scheduler. Layer 1: downloader.Run + a node actor following the BlockRequestor/Canceller contract (block of 0-2 transactions, wrong hash, processor error, short stream, no delivery) + every subset of {manager Cancel, peer Stop, shutdown interrupt}; layer 2: the real BitcoinNode.RequestBlock / CancelBlockRequest / handleBlock and stop path (hooks VerifOpenOutgoing, VerifSetInterrupt, VerifHandleBlock, VerifStopBlock) against the real downloader with the same disturbances; layer 3: BlockManager.Run with 1-2 queued requests, concurrency 1-3, scripted nodes that deliver / deliver slowly / drop / drop while the handler is busy / stay silent / are unavailable, abort and interrupt at any time, with the number of registered downloads of the block checked against the configured limit at every new request. All interleavings up to preemption bound 2 (manager scenarios with abort/interrupt: bound 0-1). Oracles: no deadlock (the scheduler knows exactly who waits on what), no unbounded polling (step horizon), Run returns, exactly one terminal signal per request, downloader list empty at quiescence, completion only after a recorded successful download, no double processing",
+   text="the real BlockDownloader and BlockManager (and the threads library) instrumented by source rewriting and run under a controlled scheduler. Layer 1: downloader.Run + a node actor following the BlockRequestor/Canceller contract (block of 0-2 transactions, wrong hash, processor error, short stream, no delivery) + every subset of {manager Cancel, peer Stop, shutdown interrupt}; layer 2: the real BitcoinNode.RequestBlock / CancelBlockRequest / handleBlock and stop path (hooks VerifOpenOutgoing, VerifSetInterrupt, VerifHandleBlock, VerifStopBlock) against the real downloader with the same disturbances; layer 3: BlockManager.Run with 1-2 queued requests, concurrency 1-3, scripted nodes that deliver / deliver slowly / drop / drop while the handler is busy / stay silent / are unavailable, abort and interrupt at any time (also with four downloads of one block in flight), with the number of registered downloads of the block checked against the configured limit at every new request and every in-flight node required to be told to cancel at shutdown. All interleavings up to preemption bound 2 (manager scenarios with abort/interrupt: bound 0-1). Oracles: no deadlock (the scheduler knows exactly who waits on what), no unbounded polling (step horizon), Run returns, exactly one terminal signal per request, downloader list empty at quiescence, completion only after a recorded successful download, no double processing",
    note="the node's connection threads are not run under the scheduler (layer 2 drives the node's block functions directly; VerifStopBlock copies the lines of run that follow the threads' stop); runs that end only through a virtual timeout are listed as outcomes (via-timeout), not alarmed",
    tech="stateless model checking of the implementation: exhaustive enumeration of thread schedules under a hand-written cooperative scheduler (iterative preemption bounding, happens-before state caching)"),
  "C20": dict(engine="peermc+schedmc", cat="model_checking", ref="DESIGN.md 6, 7 C20",
